@@ -314,7 +314,7 @@ def conc_run(case):
         pr["runs_with_operator_thread"] = 1
     edges = [C.h8(e) for e in sc.edges]
     return {"out": out, "completion": completion, "violations": viols, "schedule": sc.record(), "probes": pr, "edges": edges,
-            "sched_digest": C.h8([s for s in sc.switches]), "nswitch": len(sc.switches)}
+            "sched_digest": C.h8([s for s in sc.switches]), "nswitch": len(sc.switches), "local_steps": list(sc.local)}
 
 
 def _compare(case, ref, conc):
@@ -365,10 +365,71 @@ def _judge(case, ref, conc):
 
 
 def zy_run_seed(seed, cfg):
+    if cfg.get("sweep"):
+        return zy_sweep_seed(seed, cfg)
     g = in_fork(ref_generate, seed, cfg, timeout=120)
     case = g["case"]
     conc = in_fork(conc_run, case, timeout=150)
     return _finish(case, g["ref"], conc, g["missing_knobs"])
+
+
+def zy_sweep_seed(seed, cfg):
+    """Single-pre-emption sweep of a tiny program: two threads, one or two operations each on a shared
+    object; for (a sample of) every step k of the first thread: run it k steps, let the other
+    thread run to completion, resume.  Both role assignments.  This *enumerates* the one-switch
+    schedules of the sampled program (all of them when the thread has <= sweep_cap steps)."""
+    cfg = dict(cfg)
+    force = dict(cfg.get("force") or {})
+    rng = C.run_rng(seed ^ 0xABCDEF)
+    force.update({"nthreads": 2, "ops_per_thread": rng.choice([1, 1, 2]), "sync_start": rng.random() < 0.7, "operator": rng.random() < 0.15,
+                  "granularity": rng.choice(["line", "line", "ins"]), "fine_m2": False, "long_rate": 0.0, "same_object_bias": 0.95,
+                  "repeat_rate": 0.25})
+    cfg["force"] = force
+    g = in_fork(ref_generate, seed, cfg, timeout=120)
+    case = g["case"]
+    base = dict(case)
+    base["schedule"] = {"first": 0, "switches": [], "ends": [[0, 1], [1, 0]]}
+    first = in_fork(conc_run, base, timeout=150)
+    res = _finish(base, g["ref"], first, g["missing_knobs"])
+    ctr = C.Counters(res["counters"])
+    viols = list(res["violations"])
+    vcase = res["case"] if viols else None
+    cap = cfg.get("sweep_cap", 120)
+    executed = 1
+    exhaustive = True
+    for a in (0, 1):
+        b = 1 - a
+        steps = first["local_steps"][a]
+        ks = list(range(1, steps + 1))
+        if len(ks) > cap:
+            exhaustive = False
+            ks = sorted(rng.sample(ks, cap))
+        for k in ks:
+            c = dict(case)
+            c["schedule"] = {"first": a, "switches": [[a, k, b]], "ends": [[b, a], [a, b]]}
+            conc = in_fork(conc_run, c, timeout=150)
+            executed += 1
+            r = _finish(c, g["ref"], conc, [])
+            for key in ("probe_switches", "probe_steps", "probe_switch_while_other_thread_mid_operation"):
+                ctr.inc(key, r["counters"].get(key, 0))
+            res["states"] = sorted(set(res["states"]) | set(r["states"]))
+            if r["violations"] and not viols:
+                viols = list(r["violations"])
+                vcase = r["case"]
+            if viols:
+                break
+        if viols:
+            break
+    ctr.inc("sweep_programs")
+    ctr.inc("sweep_schedules_executed", executed)
+    if exhaustive:
+        ctr.inc("sweep_programs_with_every_single_preemption_point_executed")
+    res["counters"] = dict(ctr)
+    res["violations"] = viols
+    if vcase is not None:
+        res["case"] = vcase
+    res["nontrivial"] = [C.h8((case["ops"], "sweep"))] if executed > 2 else []
+    return res
 
 
 def zy_run_case(case, cfg):
